@@ -89,6 +89,27 @@ pub fn show_opt(o: &Option<XV>) -> String {
         Some(v) => format!("Some({})", v.show()),
     }
 }
+/// 2^e as an exact rational
+pub fn pow2(e: i32) -> BigRational {
+    let p = BigRational::from_integer(num::BigInt::from(1) << e.unsigned_abs() as usize);
+    if e >= 0 { p } else { p.recip() }
+}
+/// the stream in the unit 2^e2: exact values and their f64 images (exact as long as k 2^e2 / d is representable, which
+/// holds for the dyadic grids down to the subnormal range: callers keep d k within 2^11)
+pub fn bigs_e(xs: &[Rat], e2: i32) -> Vec<BigRational> {
+    let p = pow2(e2);
+    xs.iter().map(|r| r.big() * &p).collect()
+}
+pub fn f64s_e(xs: &[Rat], e2: i32) -> Vec<f64> {
+    // two-step scaling keeps the factor itself a normal number for e2 down to -1074
+    let (h1, h2) = (e2 / 2, e2 - e2 / 2);
+    xs.iter().map(|r| r.f64() * 2f64.powi(h1) * 2f64.powi(h2)).collect()
+}
+/// the grid unit of a stream: 1 / (largest denominator), times 2^e2
+pub fn grid_unit(xs: &[Rat], e2: i32) -> BigRational {
+    let d = xs.iter().map(|r| r.1.abs()).max().unwrap_or(1).max(1);
+    BigRational::new(1.into(), d.into()) * pow2(e2)
+}
 pub fn show_bigs(xs: &[BigRational]) -> String {
     let v: Vec<String> = xs.iter().take(64).map(|r| format!("{r}")).collect();
     format!("[{}{}]", v.join(","), if xs.len() > 64 { ",…" } else { "" })
